@@ -45,7 +45,11 @@ def glued_template(rng):
     parts.append(rng.choice(["WHERE a=1", "where a = 1", " WHERE  a = 1"]))
     while opened:
         parts.append(opened.pop())
-    parts.append(rng.choice(["\n", "", "\n\n"]))
+    # endings: template code directly before surplus trailing blanks / blank lines (where LT01/LT12 delete whitespace)
+    if rng.random() < 0.5:
+        parts.append(rng.choice(["{% if flag %} and b = 2{% endif %}", "{# trailing comment #}", "{{ empty }}"]))
+        parts.append(rng.choice(["", "   ", " "]))
+    parts.append(rng.choice(["\n", "", "\n\n", "\n\n\n"]))
     return "".join(parts), ctx
 
 
